@@ -203,6 +203,24 @@ func directedOracle() []hist {
 		h.add(claimLine(1, 1, 13, snd0, 4, "9", "eth", tok0, 2))
 		front = append(front, h) // run first: see the end of the function
 	}
+	// a whitelist that names a validator twice (two adds of the previous binary, or genesis): the admin's remove takes it
+	// out altogether; its claims are refused and its power counts nowhere (50/30/20: 30 of 50 is not 70 %)
+	for _, setup := range [][]string{{"wlset 0,1,2,0"}, {"wlset 0,1,2", "tx wl 3 add 0"}, {"wlset 0,1,2,0", "restart"}} {
+		var h hist
+		stdSetup(&h, []int64{50, 30, 20}, nil, "0,1,2")
+		for _, l := range setup {
+			h.add(l)
+		}
+		h.add("tx wl 3 remove 0")
+		h.add(claimLine(0, 1, 19, snd0, 4, "10", "eth", tok0, 2))
+		h.add(claimLine(1, 1, 19, snd0, 4, "10", "eth", tok0, 2))
+		h.add("tx wl 3 add 0")
+		h.add("tx wl 3 add 0")
+		h.add("tx wl 3 remove 0")
+		h.add(claimLine(0, 1, 19, snd0, 4, "10", "eth", tok0, 2))
+		h.add(claimLine(2, 1, 19, snd0, 4, "10", "eth", tok0, 2))
+		front = append(front, h)
+	}
 	// jailed in this block: 40/30/30, validator 2 claims, is jailed (out of the power index, status still Bonded), validator 0
 	// claims the same: 40 of the 70 that count — pending; after the staking EndBlocker and after an unjail likewise judged
 	for _, after := range []string{"", "stakeend", "unjail 2"} {
